@@ -5,6 +5,7 @@ package main
 // boundaries, plumbing), C14 (slice bounds through the pointer invariant) and C20 (file name).
 
 import (
+	"os"
 	"fmt"
 	"go/ast"
 	"go/token"
@@ -1066,6 +1067,9 @@ func checkPosWalk(c *Ctx, rule string, ri *readerInfo, roles memRoles, posFn *ss
 		}
 	}
 	if rng == nil {
+		if checkPosCountForm(c, rule, ri, roles, posFn, res, pfield, initOf) {
+			return initOf
+		}
 		c.Undecided(rule, "reader positions: the pending part is walked rune by rune over text[begin:forward]", posFn.Pos(), "no `for _, r := range string(text[begin:forward])` in the position function: positions are computed in a way this rule does not decide")
 		return initOf
 	}
@@ -1221,4 +1225,164 @@ func sortedKeys(m map[string]bool) []string {
 	}
 	sort.Strings(k)
 	return k
+}
+
+// checkPosCountForm decides a position function that counts the pending lexeme as a whole instead of walking it: the offset
+// grows by the number of runes, the line by the number of line feeds, and the column is either old column + runes (no line feed
+// in the lexeme) or 1 + the runes after the LAST line feed. A column set to a constant when the lexeme holds a line feed forgets
+// what follows the last line feed: a block comment that is closed in the middle of a line shifts every token after it.
+// It reports whether it decided (passed or failed) the function.
+func checkPosCountForm(c *Ctx, rule string, ri *readerInfo, roles memRoles, posFn *ssa.Function, res *ssa.Alloc, pfield func(int) string, initOf map[string]string) bool {
+	recv := ssa.Value(posFn.Params[0])
+	isLexeme := func(v ssa.Value) bool {
+		for i := 0; i < 4; i++ {
+			switch x := v.(type) {
+			case *ssa.Convert:
+				v = x.X
+				continue
+			case *ssa.ChangeType:
+				v = x.X
+				continue
+			}
+			break
+		}
+		sl, ok := v.(*ssa.Slice)
+		return ok && loadOfField(sl.X, recv, roles.text) && sl.Low != nil && sl.High != nil && loadOfField(sl.Low, recv, roles.begin) && loadOfField(sl.High, recv, roles.forward)
+	}
+	callName := func(v ssa.Value) (string, *ssa.Call) {
+		if call, ok := v.(*ssa.Call); ok {
+			return staticCalleeName(call), call
+		}
+		return "", nil
+	}
+	isRuneCount := func(v ssa.Value, arg func(ssa.Value) bool) bool {
+		n, call := callName(v)
+		return (n == "unicode/utf8.RuneCount" || n == "unicode/utf8.RuneCountInString") && arg(call.Call.Args[0])
+	}
+	isNLCount := func(v ssa.Value) bool {
+		n, call := callName(v)
+		return (n == "bytes.Count" || n == "strings.Count") && isLexeme(call.Call.Args[0])
+	}
+	// the tail after the last line feed: a slice of the lexeme (or of the text) whose low bound is LastIndex...(lexeme, '\n') + 1
+	isTail := func(v ssa.Value) bool {
+		for i := 0; i < 4; i++ {
+			if cv, ok := v.(*ssa.Convert); ok {
+				v = cv.X
+				continue
+			}
+			break
+		}
+		sl, ok := v.(*ssa.Slice)
+		if !ok || sl.Low == nil {
+			return false
+		}
+		found := false
+		low := sl.Low
+		if bo, ok := low.(*ssa.BinOp); ok && bo.Op == token.ADD && isConstInt(bo.Y, 1) {
+			low = bo.X
+		}
+		for _, r := range rootsOf(posFn, low, func(x ssa.Value) bool { _, ok := x.(*ssa.Call); return ok }) {
+			if n, _ := callName(r); n == "bytes.LastIndexByte" || n == "bytes.LastIndex" || n == "strings.LastIndexByte" || n == "strings.LastIndex" || n == "bytes.LastIndexAny" {
+				found = true
+			}
+		}
+		return found
+	}
+	loadOfRes := func(v ssa.Value, field int) bool {
+		u, ok := v.(*ssa.UnOp)
+		if !ok || u.Op != token.MUL {
+			return false
+		}
+		fa, ok := u.X.(*ssa.FieldAddr)
+		return ok && fa.X == ssa.Value(res) && fa.Field == field
+	}
+	sawCount := false
+	for _, b := range posFn.Blocks {
+		for _, in := range b.Instrs {
+			if v, ok := in.(ssa.Value); ok && (isNLCount(v) || isRuneCount(v, isLexeme)) {
+				sawCount = true
+			}
+		}
+	}
+	if !sawCount {
+		return false
+	}
+	okOffset, okLine, colPlain, colTail := false, false, false, false
+	bad, unclear := "", ""
+	for _, b := range posFn.Blocks {
+		for _, in := range b.Instrs {
+			st, ok := in.(*ssa.Store)
+			if !ok {
+				continue
+			}
+			fa, ok := st.Addr.(*ssa.FieldAddr)
+			if !ok || fa.X != ssa.Value(res) {
+				continue
+			}
+			if _, isInit := st.Val.(*ssa.UnOp); isInit && fieldOfLoad(st.Val, recv) >= 0 {
+				initOf[pfield(fa.Field)] = ri.typ.Underlying().(*types.Struct).Field(fieldOfLoad(st.Val, recv)).Name()
+				continue // starts from the reader's stored position
+			}
+			name := pfield(fa.Field)
+			// is this store made where the lexeme is known to hold a line feed?
+			hasNL := false
+			for _, cd := range controlConds(b) {
+				if bo, ok := cd.v.(*ssa.BinOp); ok && isNLCount(bo.X) && isConstInt(bo.Y, 0) {
+					if (bo.Op == token.GTR && cd.pol) || (bo.Op == token.NEQ && cd.pol) || (bo.Op == token.EQL && !cd.pol) || (bo.Op == token.LEQ && !cd.pol) {
+						hasNL = true
+					}
+				}
+				if bo, ok := cd.v.(*ssa.BinOp); ok && isConstInt(bo.Y, 0) {
+					if n, _ := callName(bo.X); strings.Contains(n, "LastIndex") || strings.Contains(n, "IndexByte") {
+						if (bo.Op == token.GEQ && cd.pol) || (bo.Op == token.LSS && !cd.pol) {
+							hasNL = true
+						}
+					}
+				}
+			}
+			bo, isAdd := st.Val.(*ssa.BinOp)
+			switch name {
+			case "Offset":
+				if isAdd && bo.Op == token.ADD && loadOfRes(bo.X, fa.Field) && isRuneCount(bo.Y, isLexeme) {
+					okOffset = true
+				} else {
+					unclear = "the offset is not old offset + number of runes of the lexeme"
+				}
+			case "Line":
+				if isAdd && bo.Op == token.ADD && loadOfRes(bo.X, fa.Field) && isNLCount(bo.Y) {
+					okLine = true
+				} else {
+					unclear = "the line is not old line + number of line feeds of the lexeme"
+				}
+			case "Column":
+				switch {
+				case isAdd && bo.Op == token.ADD && loadOfRes(bo.X, fa.Field) && isRuneCount(bo.Y, isLexeme) && !hasNL:
+					colPlain = true
+				case isAdd && bo.Op == token.ADD && ((isConstInt(bo.X, 1) && isRuneCount(bo.Y, isTail)) || (isConstInt(bo.Y, 1) && isRuneCount(bo.X, isTail))):
+					colTail = true
+				case hasNL:
+					if _, isConst := st.Val.(*ssa.Const); isConst {
+						bad = "where the lexeme holds a line feed the column is set to a constant: the characters between the last line feed of the lexeme and its end are not counted"
+					} else {
+						unclear = "the column after a line feed is not 1 + the runes after the last line feed"
+					}
+				default:
+					unclear = "a column update that is neither old column + runes nor 1 + runes after the last line feed"
+				}
+			}
+		}
+	}
+	key := "reader positions: the pending lexeme is counted as a whole (runes, line feeds, runes after the last line feed)"
+	switch {
+	case bad != "":
+		c.Fail(rule, key, posFn.Pos(), bad+": every token up to the next line feed is reported too far left", "a /* ... */ comment that spans two lines and is closed in the middle of a line, followed by a token on that line")
+		return true
+	case unclear == "" && okOffset && okLine && colPlain && colTail:
+		c.Pass(rule, key, posFn.Pos(), "offset + runes; line + line feeds; column + runes, or 1 + runes after the last line feed")
+		return true
+	}
+	if os.Getenv("EMCHECK_DEBUG") != "" {
+		fmt.Fprintf(os.Stderr, "count form: offset=%v line=%v colPlain=%v colTail=%v unclear=%q\n", okOffset, okLine, colPlain, colTail, unclear)
+	}
+	return false
 }
